@@ -104,6 +104,10 @@ def small_variants(tier: str) -> List[Dict[str, Any]]:
     pv = _v("local", "local", ["one"], "from", 0.25)
     pv["path_vars"] = True
     v.append(pv)
+    # helpers realised as classes with a method
+    kv = _v("local", "local", ["split"], "from", 0.25)
+    kv["klass"] = True
+    v.append(kv)
     if tier == "thorough":
         for x in v:
             x["frac"] = 1.0
